@@ -56,6 +56,16 @@ Inductive ditem :=
 | DBatt (b : list N)          (* BatteryServiceData._data *)
 | DUrl (ty : list N) (b : list N).   (* UrlServiceData._type (uuid, 0x10, power) and _data *)
 
+(* ---- service data values ---- *)
+(* TemperatureServiceData: 24-bit two's complement mantissa (hundredths of a degree), little endian,
+   then the exponent byte 0xFE *)
+Definition temp_encode (centi : Z) : list N :=
+  let m := (centi mod 16777216)%Z in
+  [Z.to_N (m mod 256); Z.to_N ((m / 256) mod 256); Z.to_N (m / 65536); 254].
+Definition temp_centi (b : list N) : Z :=
+  let m := (Z.of_N (nth 0 b 0%N) + 256 * Z.of_N (nth 1 b 0%N) + 65536 * Z.of_N (nth 2 b 0%N))%Z in
+  if (128 <=? nth 2 b 0%N)%N then (m - 16777216)%Z else m.
+
 Record element := mkElem { e_mac : list N; e_name : option (list N); e_pa : option Z; e_data : list ditem }.
 
 Record bst := mkB {
@@ -143,6 +153,7 @@ Definition signed8 (x : N) : Z := if x <? 128 then Z.of_N x else (Z.of_N x - 256
 Definition decode_struct (e : element) (buf : list N) : bres (option element) :=
   let t := byte_at buf 0 in
   if negb ((t =? 22) || (t =? 10) || (t =? 8) || (t =? 9)) then BOk None
+  else if (t =? 22) && Nat.ltb (length buf) 3 then BOk None     (* too short for a UUID: kept raw (fix C19) *)
   else
     let e1 := if (t =? 10) && Nat.eqb (length buf) 2
               then mkElem (e_mac e) (e_name e) (Some (signed8 (byte_at buf 1))) (e_data e) else e in
